@@ -443,4 +443,70 @@ class Dense(Component):
         ctx.label("dense:" + ft)
 
 
-COMPONENTS = [RandomSet(), RandomEd(), E1(), E2(), E3(), Dense()]
+@st.composite
+def large_filter_case(draw, tier):
+    from .c02 import large_case
+    case = draw(large_case(tier))
+    case["ftype"] = draw(st.sampled_from(["size", "prefix", "position", "position", "overlap"]))
+    if case["ftype"] == "overlap":
+        case["measure"] = "OVERLAP"
+    elif case["measure"] == "OVERLAP_COEFFICIENT":
+        case["measure"] = "JACCARD"
+    return case
+
+
+class Large(Component):
+    """filter_tables of Size/Prefix/Position/OverlapFilter on the larger synthetic tables of
+    C02 (40-400 rows, long values, Zipf vocabulary): every 'must' pair is listed."""
+    name = "large"
+    kind = "hyp"
+    rule = "a 'must' pair and a pair the filter drops"
+
+    def examples(self, tier):
+        return 20 if tier == "quick" else 80
+
+    def strategy(self, tier):
+        return large_filter_case(tier)
+
+    def check(self, case, ctx):
+        from .c02 import large_tables
+        L, R, lv, rv = large_tables(case["seed"], case["nl"], case["nr"], case["vocab"],
+                                    case["maxtok"])
+        ft, m = case["ftype"], case["measure"]
+        t = max(1, case["tgrid"] // 12) if m == "OVERLAP" else case["tgrid"] / 100.0
+        f = calls.make_filter(ctx, {"type": ft, "measure": m, "threshold": t},
+                              mk_tok({"kind": "ws", "return_set": True}))
+        if f is None:
+            return
+        with calls.backend(case["n_jobs"]):
+            df = ctx.lib(f.filter_tables, L, R, "key", "key", "val", "val",
+                         n_jobs=case["n_jobs"], show_progress=False)
+        if df is None:
+            return
+        got = set(zip(df["l_key"].tolist(), df["r_key"].tolist()))
+        lk, rk = L["key"].tolist(), R["key"].tolist()
+        ls = [None if v is None else frozenset(v.split()) for v in lv]
+        rs = [None if v is None else frozenset(v.split()) for v in rv]
+        nmust = 0
+        npresent = 0
+        for i, x in enumerate(ls):
+            for j, y in enumerate(rs):
+                if x is None or y is None:
+                    continue
+                npresent += 1
+                if not x or not y:
+                    continue
+                if oracle.classify(m, len(x), len(y), len(x & y), t, ">=") == "must":
+                    nmust += 1
+                    if (lk[i], rk[j]) not in got:
+                        ctx.violation(drop_sig(ft),
+                                      "%s(%s, %r).filter_tables n_jobs=%d on %dx%d synthetic rows "
+                                      "(seed %d) does not list %r with sizes/overlap %r"
+                                      % (CLS[ft], m, t, case["n_jobs"], case["nl"], case["nr"],
+                                         case["seed"], (lk[i], rk[j]),
+                                         (len(x), len(y), len(x & y))))
+        ctx.nontrivial(nmust > 0 and len(got) < npresent)
+        ctx.label("large:" + ft)
+
+
+COMPONENTS = [RandomSet(), RandomEd(), E1(), E2(), E3(), Dense(), Large()]
